@@ -20,17 +20,11 @@ structure Outer (α : Type) where
 def outer (p : P α) : Outer α :=
   ⟨p.ctxStack, p.stStack, p.elems, p.cw, p.ch, p.width, p.height, p.diagonal⟩
 
-theorem outer_setAttribute (p : P α) (k : String) (v : Val α) : outer (setAttribute o p k v) = outer p := by
-  unfold setAttribute
-  split <;> rfl
+theorem outer_setAttribute (p : P α) (k : String) (v : Val α) : outer (setAttribute o p k v) = outer p := rfl
 
-theorem rules_setAttribute (p : P α) (k : String) (v : Val α) : (setAttribute o p k v).rules = p.rules := by
-  unfold setAttribute
-  split <;> rfl
+theorem rules_setAttribute (p : P α) (k : String) (v : Val α) : (setAttribute o p k v).rules = p.rules := rfl
 
-theorem layers_setAttribute (p : P α) (k : String) (v : Val α) : (setAttribute o p k v).layers = p.layers := by
-  unfold setAttribute
-  split <;> rfl
+theorem layers_setAttribute (p : P α) (k : String) (v : Val α) : (setAttribute o p k v).layers = p.layers := rfl
 
 theorem outer_setProps (props : List (String × Val α)) : ∀ p : P α, outer (setProps o p props) = outer p := by
   unfold setProps
